@@ -7,6 +7,16 @@ message text.
 (B) the prefix list is compared with the Lean model of the input-tag chain (Model/Pos.lean, `run`),
 (C) and with the structural spec (Spec/Pos.lean, `positions`), both inside the Lean driver (mode c20).
 EXPECT/ENDEXPECT scenarios: model (mode c20x) and the multiset spec per well-formed block (mode c20b).
+
+Channels (driver mode c20c, Spec/PosChan.lean, Model/PosChan.lean = Model/Pos.lean driving the C02 channel model
+Model/ErrChan.lean): every generated program is assembled under one of the listing modes none / -l / -L / -L -olist <file> /
+-L -olist !1 / -L -olist !2, and LISTING OFF|ON|NOSKIPPED|PURECODE lines, SAVE / LISTING OFF ... RESTORE regions and RESTORE
+lines without SAVE (a faulty line of its own, error 1450) are planted in all bodies (main file, include files, macro and
+REPT/IRP/IRPN/IRPC/WHILE bodies - executed once per iteration).  The messages are collected per stream (standard output with
+the console listing, the -E error channel, the listing file) and (C) every executed faulty line must be named, with the
+position prefix of the structural spec, exactly once on standard output U error channel, nothing else may be named, and the
+listing file holds exactly the messages raised while the listing was switched on; (B) the model predicts the stream of
+every message.
 """
 import json
 import os
@@ -48,17 +58,22 @@ def irpc_string(r, n):
             return s
 
 
+LISTING_WORD = {0: "off", 1: "on", 2: "noskipped", 3: "purecode"}
+
+
 class Gen:
-    def __init__(self, rng, cls):
+    def __init__(self, rng, cls, dirs=0.0):
         self.rng = rng
         self.cls = cls          # 'A': one pass, kinds unk/argc/range/uerr/uwarn (+ silent undef); 'B': undefined symbols only
+        self.dirs = dirs        # rate of listing-control lines (LISTING / SAVE / RESTORE) per body slot
         self.nid = 0
         self.nfile = 0
         self.nvar = 0
         self.files = {}         # name -> body
         self.macros = []        # (name, body)
         self.faults = {}        # id -> dict(kind, col, warn, num, rep)
-        self.stats = dict(cont_lines=0, faults=0, cont_in_block_body=0, fault_behind_cont_in_block_body=0)
+        self.stats = dict(cont_lines=0, faults=0, cont_in_block_body=0, fault_behind_cont_in_block_body=0,
+                          dir_listing=0, dir_save_restore=0, dir_lone_restore=0)
 
     def cont(self, text, rate=0.2):
         """split a logical line over 1..3 physical lines (`rate`: how often)"""
@@ -110,6 +125,52 @@ class Gen:
         self.stats["faults"] += 1
         return ("fault", kind, i, t, self.cont(t, rate))
 
+    def directive(self, role, rate=0.2):
+        """a listing-control line: role L0..L3 (LISTING off/on/noskipped/purecode), V (SAVE), W (RESTORE).  It travels through
+        the position machinery like a planted faulty line (a RESTORE without SAVE *is* one: error 1450, no column)."""
+        r = self.rng
+        self.nid += 1
+        i = self.nid
+        if role[0] == "L":
+            w = LISTING_WORD[int(role[1:])]
+            t = " listing %s" % (w.upper() if r.random() < 0.3 else w)
+        else:
+            t = {"V": " save", "W": " restore"}[role]
+        self.faults[i] = dict(kind="dir", role=role, col=None, warn=False, num="errNoSaveFrame" if role == "W" else None, rep=False)
+        return ("fault", "dir", i, t, self.cont(t, rate))
+
+    def sprinkle(self, out, rate):
+        """listing regions around / between the lines of a body"""
+        r = self.rng
+        if not self.dirs:
+            return out
+        k = 0
+        while r.random() < self.dirs and k < 3:
+            k += 1
+            a = r.randrange(len(out) + 1)
+            b = r.randrange(a, len(out) + 1)
+            x = r.random()
+            if x < 0.45:
+                out.insert(b, self.directive("L%d" % r.choice([1, 1, 1, 2, 3]), rate))
+                out.insert(a, self.directive("L0", rate))
+                self.stats["dir_listing"] += 2
+            elif x < 0.70:
+                out.insert(b, self.directive("W", rate))
+                out.insert(a, self.directive("L0", rate))
+                out.insert(a, self.directive("V", rate))
+                self.stats["dir_save_restore"] += 1
+                self.stats["dir_listing"] += 1
+            elif x < 0.82:
+                out.insert(a, self.directive("L0", rate))            # stays off (until somebody else switches it on)
+                self.stats["dir_listing"] += 1
+            elif x < 0.92:
+                out.insert(a, self.directive("L%d" % r.choice([1, 2, 3]), rate))
+                self.stats["dir_listing"] += 1
+            elif self.cls == "A":
+                out.insert(a, self.directive("W", rate))             # RESTORE without SAVE (or taking an enclosing SAVE's frame)
+                self.stats["dir_lone_restore"] += 1
+        return out
+
     def body(self, depth, mult, minlen=1, block=False):
         """block: the body of a REPT/IRP/IRPN/IRPC/WHILE block.  Its lines are stored joined; a continuation line there moves the
         ENDM line (the line the file frame names) but not the body line numbers.  Every third block body gets continuation
@@ -142,7 +203,7 @@ class Gen:
                     t = "%s set 0" % c[2]
                     out.append(("plain", t, [t]))
                 out.append(c)
-        return out
+        return self.sprinkle(out, rate)
 
     def construct(self, depth, mult):
         r = self.rng
@@ -309,7 +370,8 @@ def shape_stats(body, macros, depth, st):
         if k in ("plain", "mdef"):
             continue
         if k == "fault":
-            st["depth%d" % min(depth, 5)] = st.get("depth%d" % min(depth, 5), 0) + 1
+            if it[1] != "dir":
+                st["depth%d" % min(depth, 5)] = st.get("depth%d" % min(depth, 5), 0) + 1
             continue
         name = "irpn" if (k == "irp" and it[1]) else k
         st[name] = st.get(name, 0) + 1
@@ -319,9 +381,9 @@ def shape_stats(body, macros, depth, st):
         shape_stats(sub, macros, depth + 1, st)
 
 
-def gen_program(rng, cls):
+def gen_program(rng, cls, dirs=0.0):
     for _ in range(50):
-        g = Gen(rng, cls)
+        g = Gen(rng, cls, dirs)
         main = g.body(0, 1)
         macros = dict(g.macros)
         if cls == "A":
@@ -363,7 +425,13 @@ GNU_RE = re.compile(r"^((?:INTERNAL|[^\s:]+:\d+(?::\d+)?)(?:: warning)?(?: #\d+)
 NUM_RE = re.compile(r" #(\d+): $")
 
 
-def run_asl(bdir, wd, files, opts):
+LST_ARGS = {"none": [], "l": ["-l"], "L": ["-L"], "olist": ["-L", "-olist", "out.lst"], "o1": ["-L", "-olist", "!1"],
+            "o2": ["-L", "-olist", "!2"]}
+LST_CONSOLE = ("l", "o1")     # the listing goes to standard output (LstName "!1")
+
+
+def run_asl(bdir, wd, files, opts, full=False):
+    """full: returns (rc, standard output apart from the error channel, error channel, listing file or None, args)"""
     os.makedirs(wd, exist_ok=True)
     for n, t in files.items():
         open(os.path.join(wd, n), "w").write(t)
@@ -374,6 +442,8 @@ def run_asl(bdir, wd, files, opts):
         args.append("-gnuerrors")
     args += ["-x"] * opts["x"]
     args += opts.get("extra", [])
+    lst = opts.get("lst", "none")
+    args += LST_ARGS[lst]
     ch = opts["chan"]
     if ch == "file":
         args += ["-E", "err.log"]
@@ -388,6 +458,16 @@ def run_asl(bdir, wd, files, opts):
         text = se      # the manual: "Default is STDERR == !2"
     else:
         text = so
+    if full:
+        con = b"" if ch == "!1" else so
+        if lst in ("L", "olist"):
+            p = os.path.join(wd, "main.lst" if lst == "L" else "out.lst")
+            ltext = open(p, "rb").read() if os.path.exists(p) else b""
+        elif lst == "o2":
+            ltext = se          # only generated with the error channel elsewhere
+        else:
+            ltext = None
+        return rc, con.decode("latin-1"), text.decode("latin-1"), (ltext.decode("latin-1") if ltext is not None else None), args
     return rc, text.decode("latin-1"), args
 
 
@@ -442,7 +522,7 @@ def identify(rec, x):
 
 def calibrate(bdir, wd, nums):
     """message texts of the numbers used (from a -n run), and the IRP_GetPos ternary of the tree under test"""
-    files = {"main.asm": " cpu z80\n bogus\n ld a,b,c\n ld a,1000\n irp x,5,6\n bogus\n endm\n expect 1\n expect 2\n endexpect\n endexpect\n expect 3\n"}
+    files = {"main.asm": " cpu z80\n bogus\n ld a,b,c\n ld a,1000\n irp x,5,6\n bogus\n endm\n expect 1\n expect 2\n endexpect\n endexpect\n restore\n expect 3\n"}
     rc, text, _ = run_asl(bdir, os.path.join(wd, "calib"), files, dict(numeric=True, gnu=False, x=1, chan="file"))
     recs = parse_channel(text, False)
     txt = {}
@@ -543,6 +623,21 @@ def prog_request(g, top, macros, recs, opts, fixed):
                                               " ".join(toks(g, top, macros)))
 
 
+def chan_request(g, top, macros, con, chan, lst, opts, fixed):
+    """request line of driver mode c20c"""
+    def hx(recs):
+        return ",".join(r["prefix"].encode("latin-1").hex() for r in recs) or "-"
+    fl = []
+    for i, f in sorted(g.faults.items()):
+        fl.append("%d:%s:%d:%s:%d:%s" % (i, f["col"] if f["col"] is not None else "-", 1 if f["warn"] else 0,
+                                         f["numv"] if f["numv"] is not None else "-", 1 if f["rep"] else 0, f.get("role", "D")))
+    console = opts["lst"] in LST_CONSOLE
+    lm = 0 if opts["lst"] == "none" else (3 if opts["chan"] == "!1" else 1) if console else 2
+    return "g%d n%d f%d l%d main.asm %s %s %s %s %s" % (opts["gnu"], opts["numeric"], 1 if fixed else 0, lm, hx(con), hx(chan),
+                                                        "~" if lst is None else hx(lst), ",".join(fl) or "-",
+                                                        " ".join(toks(g, top, macros)))
+
+
 def kv(ans):
     return dict(x.split("=", 1) for x in ans.split() if "=" in x)
 
@@ -560,14 +655,17 @@ def run(args):
     spec_fail, corr_fail, samples = [], [], []
     dist = dict(programs=0, messages=0, classA=0, classB=0, gnu=0, numeric=0, x0=0, x1=0, x2=0, chan_file=0, chan_1=0, chan_2=0, chan_default=0,
                 cont_lines=0, cont_in_block_body=0, fault_behind_cont_in_block_body=0, programs_with_fault_behind_cont_in_block_body=0, ids_verified=0, expect_scenarios=0, expect_blocks_spec=0, expect_blocks_skipped_guard=0, expect_msgs=0,
-                lncont_files=0, silent_faults=0)
+                lncont_files=0, silent_faults=0, lst_none=0, lst_l=0, lst_L=0, lst_olist=0, lst_o1=0, lst_o2=0, console_listing_is_error_channel=0,
+                programs_with_listing_lines=0, dir_listing=0, dir_save_restore=0, dir_lone_restore=0, msgs_console=0, msgs_error_channel=0,
+                msgs_listing_file=0, msgs_raised_while_listing_off=0, msgs_raised_while_listing_off_under_console_listing=0)
     shapes = {}
     distinct = set()
     evaluations = 0
     with common.Workdir("c20") as wd:
         txt, fixed, calib_text = calibrate(bdir, wd, nums)
         need = [nums[k] for k in ("errUnknownInstruction", "errWrongArgCnt", "errOverRange", "errSymbolUndef", "errExpectedError",
-                                  "errNoNestExpect", "errMissingENDEXPECT", "errMissingEXPECT", "errNoShareFile", "errNullResMem", "errNegDUP")]
+                                  "errNoNestExpect", "errMissingENDEXPECT", "errMissingEXPECT", "errNoShareFile", "errNullResMem", "errNegDUP",
+                                  "errNoSaveFrame")]
         if fixed is None or any(n not in txt for n in need):
             spec_fail.append(dict(tag="calibration", why="the calibration program did not produce the expected messages (numbers %s; IRP probe %s)" % (
                 [n for n in need if n not in txt], fixed), output=calib_text[:3000]))
@@ -577,18 +675,47 @@ def run(args):
         # ---- corpus + generated position programs
         cases = []
         cdir = os.path.join(common.VERIF, "corpus", "C20")
-        creqs, cmetas = [], []
+        creqs, cmetas, xreqs_c, xmetas_c = [], [], [], []
         for f in sorted(os.listdir(cdir)) if os.path.isdir(cdir) else []:
             if not f.endswith(".json"):
                 continue
             cc = json.load(open(os.path.join(cdir, f)))
             pdir = os.path.join(wd, "c_" + f[:-5])
+            if "lst" in cc["opts"]:
+                # channel corpus (driver mode c20c): listing mode + LISTING / SAVE / RESTORE lines
+                o = cc["opts"]
+                rc, ctext, text, ltext, cmd = run_asl(bdir, pdir, cc["files"], o, full=True)
+                rl = [parse_channel(t, bool(o["gnu"])) if t is not None else None for t in (ctext, text, ltext)]
+                hx = [("~" if r is None else (",".join(x["prefix"].encode("latin-1").hex() for x in r) or "-")) for r in rl]
+                lm = 0 if o["lst"] == "none" else (3 if o["chan"] == "!1" else 1) if o["lst"] in LST_CONSOLE else 2
+                xreqs_c.append("g%d n%d f%d l%d main.asm %s %s %s %s %s" % (o["gnu"], o["numeric"], 1 if fixed else 0, lm, hx[0], hx[1], hx[2], cc["faults"], cc["toks"]))
+                xmetas_c.append(dict(tag="corpus:" + f, files=cc["files"], cmd=cmd, console=[r["prefix"] + r["text"] for r in rl[0]][:40],
+                                     channel=[r["prefix"] + r["text"] for r in rl[1]][:40]))
+                continue
             rc, text, cmd = run_asl(bdir, pdir, cc["files"], cc["opts"])
             recs = parse_channel(text, bool(cc["opts"]["gnu"]))
             real = ",".join(r["prefix"].encode("latin-1").hex() for r in recs) or "-"
             creqs.append("g%d n%d f%d main.asm %s %s %s" % (cc["opts"]["gnu"], cc["opts"]["numeric"], 1 if fixed else 0, real, cc["faults"], cc["toks"]))
             cmetas.append(dict(tag="corpus:" + f, files=cc["files"], cmd=cmd, channel=[r["prefix"] + r["text"] for r in recs][:40]))
         cans = common.driver("c20", creqs, timeout=600) if drv_ok and creqs else []
+        cans_c = common.driver("c20c", xreqs_c, timeout=600) if drv_ok and xreqs_c else []
+        for meta, req, ans in zip(xmetas_c, xreqs_c, cans_c):
+            a = kv(ans)
+            evaluations += 1
+            dist["corpus"] = dist.get("corpus", 0) + 1
+            payload = dict(request=req, answer=ans[:1500], **meta)
+            for k in ("miss", "extra", "lmiss", "lextra"):
+                if a.get(k, "-") != "-":
+                    try:
+                        payload["spec_" + k] = [bytes.fromhex(x).decode("latin-1") for x in a[k].split(",")]
+                    except ValueError:
+                        pass
+            if a.get("spec") != "eq":
+                spec_fail.append(dict(sig=None, why="messages on standard output U error channel / in the listing file are not the positions of the executed "
+                                      "faulty lines, once each: missing %r, unexpected %r" % (payload.get("spec_miss") or payload.get("spec_lmiss"),
+                                                                                           payload.get("spec_extra") or payload.get("spec_lextra")), **payload))
+            elif a.get("model") != "eq" or a.get("ms") != "eq":
+                corr_fail.append(dict(why="real output satisfies the spec but the model differs", **payload))
         for meta, req, ans in zip(cmetas, creqs, cans):
             a = kv(ans)
             evaluations += 1
@@ -604,9 +731,16 @@ def run(args):
                 corr_fail.append(dict(why="real output satisfies the spec but the model differs", **payload))
         for i in range(n_prog):
             cls = "B" if i % 7 == 3 else "A"
-            g, top, macros, nmsg = gen_program(rng, cls)
+            # listing-control lines in two programs out of three; the listing mode is drawn independently of them
+            dirs = rng.choice([0.0, 0.35, 0.6])
+            g, top, macros, nmsg = gen_program(rng, cls, dirs)
             opts = dict(gnu=int(rng.random() < 0.35), numeric=int(rng.random() < 0.6), x=rng.choice([0, 0, 1, 1, 2]),
-                        chan=rng.choice(["file", "file", "!1", "!2", "default"]))
+                        chan=rng.choice(["file", "file", "!1", "!2", "default"]),
+                        lst=rng.choice(["none", "none", "none", "l", "l", "l", "L", "olist", "o1", "o2"]))
+            if opts["lst"] == "o2" and opts["chan"] in ("!2", "default"):
+                # listing and error channel both on standard error: every message of a listed line is there twice, by design of a
+                # listing "file"; the two copies cannot be told apart on one stream - the error channel goes elsewhere
+                opts["chan"] = rng.choice(["file", "!1"])
             cases.append((g, top, macros, opts, "gen:%d:%s" % (i, cls)))
         reqs, metas, lreqs, lmetas = [], [], [], []
         for idx, (g, top, macros, opts, tag) in enumerate(cases):
@@ -614,13 +748,24 @@ def run(args):
                 f["numv"] = nums[f["num"]] if f["num"] else None
             files, phys = file_texts(g, top)
             pdir = os.path.join(wd, "p%d" % idx)
-            rc, text, cmd = run_asl(bdir, pdir, files, opts)
-            recs = parse_channel(text, bool(opts["gnu"]))
-            meta = dict(tag=tag, files=files, opts=opts, cmd=cmd, rc=rc, recs=recs, g=g)
+            rc, ctext, text, ltext, cmd = run_asl(bdir, pdir, files, opts, full=True)
+            crecs = parse_channel(ctext, bool(opts["gnu"]))
+            hrecs = parse_channel(text, bool(opts["gnu"]))
+            lrecs = parse_channel(ltext, bool(opts["gnu"])) if ltext is not None else None
+            recs = crecs + hrecs
+            meta = dict(tag=tag, files=files, opts=opts, cmd=cmd, rc=rc, recs=recs, crecs=crecs, hrecs=hrecs, lrecs=lrecs, g=g)
             if rc not in (0, 2) or (rc == 0 and any(not r["prefix"].count("warning") for r in recs)):
-                corr_fail.append(dict(tag=tag, why="unexpected exit status %s" % rc, files=files, cmd=cmd, output=text[:2000]))
-            reqs.append(prog_request(g, top, macros, recs, opts, fixed))
+                corr_fail.append(dict(tag=tag, why="unexpected exit status %s" % rc, files=files, cmd=cmd, output=(ctext + text)[:2000]))
+            reqs.append(chan_request(g, top, macros, crecs, hrecs, lrecs, opts, fixed))
             metas.append(meta)
+            dist["lst_" + opts["lst"]] += 1
+            dist["console_listing_is_error_channel"] += 1 if (opts["lst"] in LST_CONSOLE and opts["chan"] == "!1") else 0
+            dist["programs_with_listing_lines"] += 1 if any(f["kind"] == "dir" for f in g.faults.values()) else 0
+            for k_ in ("dir_listing", "dir_save_restore", "dir_lone_restore"):
+                dist[k_] += g.stats[k_]
+            dist["msgs_console"] += len(crecs)
+            dist["msgs_error_channel"] += len(hrecs)
+            dist["msgs_listing_file"] += len(lrecs or [])
             for fn, t in files.items():
                 pl_ = t.split("\n")
                 if pl_ and pl_[-1] == "":
@@ -641,28 +786,38 @@ def run(args):
             shape_stats(top, macros, 0, shapes)
             import shutil
             shutil.rmtree(pdir, ignore_errors=True)
-        answers = common.driver("c20", reqs, timeout=3600) if drv_ok and reqs else []
+        answers = common.driver("c20c", reqs, timeout=3600) if drv_ok and reqs else []
         for meta, req, ans in zip(metas, reqs, answers):
             a = kv(ans)
             g, recs, opts = meta["g"], meta["recs"], meta["opts"]
             evaluations += 1
             dist["messages"] += len(recs)
             payload = dict(tag=meta["tag"], files=meta["files"], cmd=meta["cmd"], request=req, answer=ans[:1500],
-                           channel=[r["prefix"] + r["text"] for r in recs][:40])
+                           console=[r["prefix"] + r["text"] for r in meta["crecs"]][:40],
+                           channel=[r["prefix"] + r["text"] for r in meta["hrecs"]][:40])
+            if meta["lrecs"] is not None:
+                payload["listing_file"] = [r["prefix"] + r["text"] for r in meta["lrecs"]][:40]
             if "model" not in a:
                 corr_fail.append(dict(why="driver rejected the request", **payload))
                 continue
-            for k in ("m", "s", "r"):
-                if k in a:
+            for k in ("miss", "extra", "lmiss", "lextra"):
+                if a.get(k, "-") != "-":
                     try:
-                        payload["at_" + k] = bytes.fromhex(a[k]).decode("latin-1")
+                        payload["spec_" + k] = [bytes.fromhex(x).decode("latin-1") for x in a[k].split(",")]
                     except ValueError:
                         pass
+            if a.get("off", "0").isdigit():
+                dist["msgs_raised_while_listing_off"] += int(a["off"])
+                if opts["lst"] in LST_CONSOLE:
+                    dist["msgs_raised_while_listing_off_under_console_listing"] += int(a["off"])
             # message kind / identity checks (harness level): text of the message, and the planted id it betrays
-            ids = [] if a.get("ids", "-") == "-" else [int(x) if x != "?" else None for x in a["ids"].split(",")]
+            def idl(key):
+                return [] if a.get(key, "-") == "-" else [int(x) if x != "?" else None for x in a[key].split(",")]
             id_problem = None
-            if len(ids) == len(recs):
-                for r, i in zip(recs, ids):
+            for rl, ids in ((meta["crecs"], idl("idcon")), (meta["hrecs"], idl("idchan")), (meta["lrecs"] or [], idl("idlst"))):
+                if len(ids) != len(rl) or id_problem or a.get("model") != "eq":
+                    continue
+                for r, i in zip(rl, ids):
                     f = g.faults.get(i)
                     if f is None:
                         id_problem = "unknown id"
@@ -683,13 +838,23 @@ def run(args):
                     # the bug-compatible model (IRP_GetPos ternary as in the tree) reproduces the output exactly and differs
                     # from the spec only through that ternary (C20_position: the repaired model equals the spec)
                     sig = SIG_IRP
-                spec_fail.append(dict(sig=sig, why=id_problem or "position prefix differs from the structural spec", **payload))
+                why = id_problem
+                if not why and a.get("nmiss", "0") not in ("0", "-"):
+                    why = ("%s executed faulty line(s) not named with their position on standard output U error channel (listing mode %s, -E %s), "
+                           "first: %r" % (a["nmiss"], opts["lst"], opts["chan"], (payload.get("spec_miss") or ["?"])[0]))
+                elif not why and a.get("nextra", "0") not in ("0", "-"):
+                    why = "%s message(s) name a position that no executed faulty line has, first: %r" % (a["nextra"], (payload.get("spec_extra") or ["?"])[0])
+                elif not why and (payload.get("spec_lmiss") or payload.get("spec_lextra")):
+                    why = "the listing file does not hold exactly the messages raised while the listing was on: missing %r, unexpected %r" % (
+                        payload.get("spec_lmiss"), payload.get("spec_lextra"))
+                spec_fail.append(dict(sig=sig, why=why or "position prefixes differ from the structural spec (order / stream)", **payload))
             elif a["model"] != "eq" or a["ms"] != "eq":
                 corr_fail.append(dict(why="real output satisfies the spec but the model differs", **payload))
-            distinct.add(req.split(" ", 4)[4] if len(recs) >= 1 else "")
+            distinct.add(req.split(" ", 9)[9] if len(recs) >= 1 else "")
             if len(samples) < 3 and len(recs) >= 3 and a["spec"] == "eq":
                 samples.append(dict(tag=meta["tag"], options=meta["cmd"], main=meta["files"]["main.asm"][:700],
-                                    channel=[r["prefix"] + r["text"] for r in recs][:8], verdict=" ".join(ans.split()[:5])))
+                                    console=[r["prefix"] + r["text"] for r in meta["crecs"]][:8],
+                                    channel=[r["prefix"] + r["text"] for r in meta["hrecs"]][:8], verdict=" ".join(ans.split()[:5])))
         # ReadLnCont line counting against the generator's physical line counts
         lans = common.driver("c20l", [r if r else "-" for r in lreqs], timeout=600) if drv_ok and lreqs else []
         for (tag, fn, phys, t), ans in zip(lmetas, lans):
@@ -791,17 +956,23 @@ def run(args):
     dist["irp_getpos_repaired"] = bool(fixed)
     res.coverage = common.proof_coverage(audit, "C20", [
         "translate/tables.py gen_errpos (EXPECT message numbers from errmsg.h, catalogue texts of as.msg via compiled dumper)",
-        "correspondence: real asl error channel vs Model/Pos.lean on generated nesting trees (differential test)",
-        "harness parser of the error channel (vlib/props/c20.py parse_channel)"])
+        "correspondence: real asl message streams (console listing, error channel, listing file) vs Model/Pos.lean + Model/PosChan.lean "
+        "(= Model/ErrChan.lean driven by the planted lines) on generated nesting trees (differential test)",
+        "harness parser of the message streams (vlib/props/c20.py parse_channel; messages are picked out of listings by their lead-in)"])
     res.coverage.update(
         evaluations=evaluations, distinct_nontrivial=len([d for d in distinct if d]),
-        rule="one evaluation = one asl run whose whole error channel is compared message by message (prefix text byte for byte) with model and spec; "
+        rule="one evaluation = one asl run whose message streams (standard output with the console listing, error channel, listing file) are compared "
+             "message by message (prefix text byte for byte) with model and spec; "
              "non-trivial = at least one message; distinct by nesting tree / EXPECT event list",
         samples=samples, distribution=dist)
     res.assumptions = [
         "macro names and IRP arguments appear upper-cased in positions (default case-insensitive mode); the request carries them upper-cased",
         "the planted faulty lines raise exactly one message each (checked: message text/number of every message is the planted kind's)",
-        "message columns (:col) are computed by the generator from the logical line (one leading blank, no tabs)"]
+        "message columns (:col) are computed by the generator from the logical line (one leading blank, no tabs)",
+        "the order in which two different streams were written is not observable: the spec demands that the named positions, in execution order, "
+        "split into the sequence on standard output and the sequence on the error channel (Spec/PosChan.interleaved)",
+        "listing on standard error together with the error channel on standard error is not generated (every listed message is there twice and "
+        "the copies cannot be attributed); unbalanced SAVE (message 'missing RESTORE' at the end of the pass) is not generated"]
     return common.conclude(res, proof_problems, spec_fail, corr_fail, evaluations)
 
 
@@ -817,10 +988,12 @@ def replay(args):
             rc, so, se = common.run_tool(bdir, "asl", d["cmd"], wd)
             print("asl", " ".join(d["cmd"]), "-> rc", rc)
             print((so + se).decode("latin-1")[-3000:])
-            p = os.path.join(wd, "err.log")
-            if os.path.exists(p):
-                print(open(p).read()[-3000:])
+            for fn in ("err.log", "main.lst", "out.lst"):
+                p = os.path.join(wd, fn)
+                if os.path.exists(p):
+                    print("----", fn)
+                    print(open(p, encoding="latin-1").read()[-3000:])
     if "request" in d:
-        mode = "c20x" if d.get("tag", "").startswith("expect") else "c20"
+        mode = "c20x" if d.get("tag", "").startswith("expect") else "c20c" if re.match(r"^g\d n\d f\d l\d ", d["request"]) else "c20"
         print(common.driver(mode, [d["request"]])[0][:1500])
     return 0
